@@ -198,14 +198,17 @@ func (h *webHarness) buildStd(chi bool) webRouter {
 		mux.Handle("/missing", mwf(godihttp.Handle(func(c *kit.P5, w http.ResponseWriter, r *http.Request) { lr(r).ev("handler") }, hopts...)))
 		mux.Handle("/nomw", godihttp.Handle(func(c *kit.P2, w http.ResponseWriter, r *http.Request) { lr(r).ev("handler") }, hopts...))
 	}
-	mux.Handle("/raw", mwf(http.HandlerFunc(func(w http.ResponseWriter, r *http.Request) {
+	rawH := http.HandlerFunc(func(w http.ResponseWriter, r *http.Request) {
 		s := scopeOf(r)
 		var ctl *kit.P2
 		if s != nil {
 			ctl, _ = godi.Resolve[*kit.P2](s)
 		}
 		h.method(ctl, s, r.Header.Get("X-Req"))
-	})))
+	})
+	mux.Handle("/raw", mwf(rawH))
+	// the scope middleware installed at two nesting levels (e.g. globally and on a route group)
+	mux.Handle("/nested", mwf(mwf(rawH)))
 	return &stdRouter{mux}
 }
 
@@ -252,14 +255,16 @@ func (h *webHarness) buildGin() webRouter {
 	eng.GET("/h", mw, godigin.Handle(func(ctl *kit.P2, c *gin.Context) { h.method(ctl, scopeOf(c), c.GetHeader("X-Req")) }, hopts...))
 	eng.GET("/missing", mw, godigin.Handle(func(ctl *kit.P5, c *gin.Context) { lr(c).ev("handler") }, hopts...))
 	eng.GET("/nomw", godigin.Handle(func(ctl *kit.P2, c *gin.Context) { lr(c).ev("handler") }, hopts...))
-	eng.GET("/raw", mw, func(c *gin.Context) {
+	rawH := func(c *gin.Context) {
 		s := scopeOf(c)
 		var ctl *kit.P2
 		if s != nil {
 			ctl, _ = godi.Resolve[*kit.P2](s)
 		}
 		h.method(ctl, s, c.GetHeader("X-Req"))
-	})
+	}
+	eng.GET("/raw", mw, rawH)
+	eng.GET("/nested", mw, mw, rawH)
 	return &ginRouter{eng}
 }
 
@@ -308,14 +313,16 @@ func (h *webHarness) buildEcho() webRouter {
 	}, hopts...), mw)
 	e.GET("/missing", godiecho.Handle(func(ctl *kit.P5, c echo.Context) error { lr(c).ev("handler"); return nil }, hopts...), mw)
 	e.GET("/nomw", godiecho.Handle(func(ctl *kit.P2, c echo.Context) error { lr(c).ev("handler"); return nil }, hopts...))
-	e.GET("/raw", func(c echo.Context) error {
+	rawH := func(c echo.Context) error {
 		s := scopeOf(c)
 		var ctl *kit.P2
 		if s != nil {
 			ctl, _ = godi.Resolve[*kit.P2](s)
 		}
 		return h.method(ctl, s, c.Request().Header.Get("X-Req"))
-	}, mw)
+	}
+	e.GET("/raw", rawH, mw)
+	e.GET("/nested", rawH, mw, mw)
 	return &echoRouter{e}
 }
 
@@ -364,7 +371,7 @@ func (h *webHarness) buildFiber() webRouter {
 	app.Get("/h", mw, godifiber.Handle(func(ctl *kit.P2, c *fiber.Ctx) error { return h.method(ctl, godifiber.FromContext(c), c.Get("X-Req")) }, hopts...))
 	app.Get("/missing", mw, godifiber.Handle(func(ctl *kit.P5, c *fiber.Ctx) error { lr(c).ev("handler"); return nil }, hopts...))
 	app.Get("/nomw", godifiber.Handle(func(ctl *kit.P2, c *fiber.Ctx) error { lr(c).ev("handler"); return nil }, hopts...))
-	app.Get("/raw", mw, func(c *fiber.Ctx) error {
+	rawH := func(c *fiber.Ctx) error {
 		s := godifiber.FromContext(c)
 		var ctl *kit.P2
 		if s != nil {
@@ -375,7 +382,9 @@ func (h *webHarness) buildFiber() webRouter {
 			lr(c).ev("usercontext-scope-mismatch")
 		}
 		return h.method(ctl, s, c.Get("X-Req"))
-	})
+	}
+	app.Get("/raw", mw, rawH)
+	app.Get("/nested", mw, mw, rawH)
 	return &fiberRouter{app}
 }
 
@@ -403,6 +412,8 @@ func pathOf(exit string) string {
 		return "/nomw"
 	case "raw":
 		return "/raw"
+	case "nested":
+		return "/nested"
 	}
 	return "/h"
 }
@@ -444,11 +455,16 @@ func (h *webHarness) oneRequest(router webRouter, exit string, reqNo int) []Find
 	if exit == "provider-closed" || exit == "no-middleware" {
 		wantScopes = 0
 	}
-	if created != wantScopes {
+	if exit == "nested" {
+		// each pass of the middleware may create its own scope (or the inner pass may reuse the outer one)
+		if created != 1 && created != 2 {
+			bad("scope-count", fmt.Sprintf("%d scopes were created for a request passing the middleware twice (events %s)", created, evs))
+		}
+	} else if created != wantScopes {
 		bad("scope-count", fmt.Sprintf("%d scopes were created for the request, want %d (events %s)", created, wantScopes, evs))
 	}
 	// which handlers ran
-	expectHandler := exit == "ok" || exit == "handler-error" || exit == "handler-panic" || exit == "raw"
+	expectHandler := exit == "ok" || exit == "handler-error" || exit == "handler-panic" || exit == "raw" || exit == "nested"
 	if has("handler") != b2i(expectHandler) {
 		bad("handler-ran", fmt.Sprintf("handler ran %d times, want %d (events %s)", has("handler"), b2i(expectHandler), evs))
 	}
@@ -504,6 +520,9 @@ func (h *webHarness) oneRequest(router webRouter, exit string, reqNo int) []Find
 	for i := 0; i < wantMw; i++ {
 		expMw = append(expMw, fmt.Sprintf("mw%d", i))
 	}
+	if exit == "nested" {
+		expMw = append(expMw, expMw...) // both passes run the configured middlewares
+	}
 	if strings.Join(gotMw, ",") != strings.Join(expMw, ",") {
 		bad("middleware-order", fmt.Sprintf("middlewares ran %v, want %v", gotMw, expMw))
 	}
@@ -515,6 +534,12 @@ func (h *webHarness) oneRequest(router webRouter, exit string, reqNo int) []Find
 			continue
 		}
 		if sc == nil {
+			sc = s
+		} else if s != sc && exit == "nested" {
+			// the passes may use different scopes: each scope seen must refuse use afterwards; the handler's is the innermost
+			if _, err := sc.Get(kit.TypeOf("D1")); !errors.Is(err, godi.ErrScopeDisposed) {
+				bad("scope-open-after-request", fmt.Sprintf("the outer pass' scope still resolves after the request ended (err=%v)", err))
+			}
 			sc = s
 		} else if s != sc {
 			bad("different-scopes", fmt.Sprintf("middlewares / handler saw different scopes (%s vs %s)", sc.ID(), s.ID()))
@@ -603,7 +628,7 @@ func webRun(c webCase) (fs []Finding, summary string) {
 	return
 }
 
-var webExits = []string{"ok", "raw", "mw-error", "handler-error", "handler-panic", "scope-fail", "provider-closed", "unregistered", "no-middleware"}
+var webExits = []string{"ok", "raw", "nested", "mw-error", "handler-error", "handler-panic", "scope-fail", "provider-closed", "unregistered", "no-middleware"}
 
 func webCases(integ string) []webCase {
 	var out []webCase
@@ -784,7 +809,7 @@ func (h *webHarness) oneRequestConc(router webRouter, exit string, reqNo int) []
 	res := router.serve(pathOf(exit), id)
 	log := h.lg(id)
 	evs := strings.Join(log.events, ",")
-	expectHandler := exit == "ok" || exit == "handler-error" || exit == "handler-panic" || exit == "raw"
+	expectHandler := exit == "ok" || exit == "handler-error" || exit == "handler-panic" || exit == "raw" || exit == "nested"
 	n := 0
 	for _, x := range log.events {
 		if x == "handler" {
@@ -804,6 +829,12 @@ func (h *webHarness) oneRequestConc(router webRouter, exit string, reqNo int) []
 			continue
 		}
 		if sc == nil {
+			sc = s
+		} else if s != sc && exit == "nested" {
+			// the passes may use different scopes: each scope seen must refuse use afterwards; the handler's is the innermost
+			if _, err := sc.Get(kit.TypeOf("D1")); !errors.Is(err, godi.ErrScopeDisposed) {
+				bad("scope-open-after-request", fmt.Sprintf("the outer pass' scope still resolves after the request ended (err=%v)", err))
+			}
 			sc = s
 		} else if s != sc {
 			bad("different-scopes", "middleware and handler saw different scopes")
